@@ -45,9 +45,12 @@ def seeded_variants(pid: str | None = None):
             continue
         try:
             with open(mf, encoding='utf-8') as f:
-                breaks = json.load(f).get('breaks', [])
+                meta = json.load(f)
+                breaks = meta.get('breaks', [])
         except (OSError, ValueError):
             continue
+        if meta.get('not_decided'):
+            continue                  # a confirmed change that no rule decides (recorded as such in DESIGN.md): not a standing mutant
         for b in breaks:
             if pid is None or b == pid:
                 out.append({'id': f'seeded:{name}', 'property': b, 'edits': [], 'patch': pf})
